@@ -421,6 +421,9 @@ func (r *run) checkC03(end, msg string) error {
 	started := int(r.metrics.InstanceStart.Get())
 	firedAll := 0
 	for pi, w := range r.pools {
+		if len(w.DeadCtx) > 0 {
+			return fmt.Errorf("GUN-CONTEXT: pool %d: %s although the run was neither cancelled nor failed", pi, w.DeadCtx[0])
+		}
 		if len(w.BadRelease) > 0 {
 			return fmt.Errorf("AMMO-LIFECYCLE: pool %d: %s", pi, w.BadRelease[0])
 		}
@@ -654,6 +657,9 @@ func (r *run) checkC12(end, msg string) error {
 		return err
 	}
 	w := r.pools[0]
+	if len(w.DeadCtx) > 0 && !r.cancelled && r.runErr == nil {
+		return fmt.Errorf("GUN-CONTEXT: %s although the run was neither cancelled nor failed", w.DeadCtx[0])
+	}
 	off, _ := r.cfg.Startup.tokens()
 	// instances = bound guns; creation order is index order (index 0 may be the warm-up gun, never bound)
 	var ids []int
